@@ -10,6 +10,7 @@ def configs(tier):
         ('case variants next to unique names {Foo,foo,x}', dict(fam_kw=dict(shape='two_parents', names=('Foo', 'foo', 'x')))),
         ('names differing only in the case of their PascalCase form {foobar,foo_bar,x}', dict(fam_kw=dict(shape='two_parents', names=('foobar', 'foo_bar', 'x')))),
         ('three branches, one nested deeper, {x,y,item}', dict(fam_kw=dict(shape='three_branches', names=('x', 'y', 'item')))),
+        ('same name below same-named parents, optional text-only siblings, {a,x,d}', dict(fam_kw=dict(shape='deep_pair', names=('x', 'd', 'a'), text_siblings=True))),
         ('two documents merged, wide, {a,b,c}', dict(fam_kw=dict(shape='wide', names=('a', 'b', 'c'), docs=2))),
     ]
     if tier == 'quick': return q
